@@ -177,8 +177,9 @@ class World(object):
     def __init__(self, definitions=(), workbooks=(), clock=None,
                  defer_post_tx=False, db=None, expr_stub=None,
                  conf=None, project_id='proj-a', is_admin=False,
-                 sym_ids=False):
+                 sym_ids=False, multi_process=False):
         self.sym_ids = sym_ids
+        self.multi_process = multi_process
         self.project_id = project_id
         self.is_admin = is_admin
         self.definitions = list(definitions)
@@ -217,7 +218,8 @@ class World(object):
             fixtures += _fixture('wf', text, self.project_id, self.is_admin)
         st = contextlib.ExitStack()
         self._stack = st
-        st.enter_context(minidb.installed(self.db, per_thread_tx_lock=False))
+        st.enter_context(minidb.installed(
+            self.db, per_thread_tx_lock=self.multi_process))
         st.enter_context(self.clock.installed())
         st.enter_context(env.auth_ctx(self.project_id, self.is_admin))
         spec_parser.clear_caches()
@@ -336,7 +338,7 @@ class World(object):
                 result = r if isinstance(r, ml.Result) else ml.Result(data=r)
             except Exception as e:
                 result = ml.Result(error=str(e))
-        if not p['action'].is_sync() and result == 'async':
+        if isinstance(result, str) and result == 'async':
             return None
         self.post(Event('rpc', 'on_action_complete',
                         ('on_action_complete', (p['id'], result), {})))
@@ -366,7 +368,7 @@ class World(object):
             res = None
             if ev.kind == 'action' and result_of is not None:
                 res = result_of(ev)
-                if res == 'hold':
+                if isinstance(res, str) and res == 'hold':
                     # leave it running (async action / slow executor)
                     self.take(ev)
                     self.held = getattr(self, 'held', []) + [ev]
